@@ -17,34 +17,80 @@ import RqModel.Model.Util
 namespace RqModel.Cdc
 open RqModel.Util
 
+/-- the operation code SQLite hands to the pre-update hook -/
 inductive Op where
   | insert | update | delete
+  | unknown (code : Nat)
 deriving Repr, DecidableEq
 
-/-- one row change as SQLite makes it; `id` names the change (its table, operation, row ids and
-before/after values are kept by the harness / are abstract here) -/
+/-- a column value as the driver hands it over (normalizeCDCValues maps each Go type to the
+CDCValue case of the same type: int64→I, float64→D, bool→B, string→S, []byte→Y, nil→nil) -/
+inductive Val where
+  | int (z : Int) | real (tok : String) | bool (b : Bool) | text (s : String) | blob (bs : List UInt8) | null
+deriving Repr, DecidableEq
+
+abbrev Row := List Val
+
+/-- `sqlite3.SQLitePreUpdateData`: one row change as SQLite reports it to the hook. `old` is what
+`d.Old()` yields (defined for UPDATE and DELETE), `new` what `d.New()` yields (INSERT and UPDATE).
+`id` is a ghost field naming the change for the harness. -/
 structure Change where
   table : String
   id : Nat
+  op : Op := .insert
+  oldRowID : Int := 0
+  newRowID : Int := 0
+  old : Row := []
+  new : Row := []
 deriving Repr, DecidableEq
 
-/-- an event as delivered: which change, and whether column values are attached -/
+/-- `command.CDCEvent` -/
 structure Event where
   table : String
-  id : Nat
-  values : Bool
+  id : Nat                       -- ghost: which change
+  op : Op
+  oldRowId : Int := 0
+  newRowId : Int := 0
+  oldRow : Option Row := none
+  newRow : Option Row := none
+  error : Bool := false
 deriving Repr, DecidableEq
+
+def Event.values (e : Event) : Bool := e.oldRow.isSome || e.newRow.isSome
 
 structure Cfg where
   idsOnly : Bool
   tables : Option (List String)   -- `none` = no filter; else the tables the regex matches
 deriving Repr
 
-/-- `convertFn`: `none` when the table is filtered out -/
-def convert (c : Cfg) (ch : Change) : Option Event :=
+/-- the table filter of `convertFn` (`tblRe.MatchString`, cached) -/
+def tableMatches (c : Cfg) (t : String) : Bool :=
   match c.tables with
-  | some ts => if ts.contains ch.table then some ⟨ch.table, ch.id, !c.idsOnly⟩ else none
-  | none => some ⟨ch.table, ch.id, !c.idsOnly⟩
+  | some ts => ts.contains t
+  | none => true
+
+/-- the `switch d.Op` of `convertFn`: operation and row ids; `none` = unknown operation code -/
+def baseEvent (d : Change) : Option Event :=
+  match d.op with
+  | .insert => some { table := d.table, id := d.id, op := d.op, newRowId := d.newRowID }
+  | .update => some { table := d.table, id := d.id, op := d.op, oldRowId := d.oldRowID, newRowId := d.newRowID }
+  | .delete => some { table := d.table, id := d.id, op := d.op, oldRowId := d.oldRowID }
+  | .unknown _ => none
+
+/-- the two `if d.Op != …` blocks of `convertFn`: old row unless INSERT, new row unless DELETE -/
+def withRows (d : Change) (ev : Event) : Event :=
+  let ev := if d.op != .insert then { ev with oldRow := some d.old } else ev
+  if d.op != .delete then { ev with newRow := some d.new } else ev
+
+/-- `convertFn` of RegisterPreUpdateHook (db/db.go), line by line: table filter; operation and row
+ids; stop there in row-ids-only mode; old row unless INSERT; new row unless DELETE. `none` = the
+table is filtered out (no event). An unknown operation code yields an event carrying an error. -/
+def convert (c : Cfg) (d : Change) : Option Event :=
+  if !tableMatches c d.table then none
+  else
+    match baseEvent d with
+    | none => some { table := d.table, id := d.id, op := d.op, error := true }
+    | some ev => if c.idsOnly then some ev else some (withRows d ev)
 
 structure Stmt where
   touched : List Change    -- row changes made (in order) before the statement ended
@@ -98,15 +144,25 @@ def request (c : Cfg) (tx : Bool) (stmts : List Stmt) : St :=
 /-! ### line protocol
 `cfg <idsOnly 0|1> <*|table,table|->` → `ok`   (`*` no filter, `-` filter matching nothing)
 `req <tx 0|1> <stmt;stmt;…|->` → `<group|group|…|-> <pending count>`
-stmt: `ok:<changes>` | `fail:<changes>` | `read:` (no write transaction); changes `.`-separated `<table>#<id>` or empty.
-event: `<table>#<id>` with suffix `v` when values are attached; events `,`-separated. -/
+stmt: `ok:<changes>` | `fail:<changes>` | `read:` (no write transaction); changes `.`-separated
+`<table>#<id>#<i|u|d>` or empty. event: `<table>#<id>#<i|u|d>` with suffix `v` when values are
+attached; events `,`-separated. -/
 
 structure DState where
   cfg : Cfg := ⟨false, none⟩
 
+def parseOp (s : String) : Option Op :=
+  if s == "i" then some .insert else if s == "u" then some .update else if s == "d" then some .delete else none
+
+def opStr : Op → String
+  | .insert => "i" | .update => "u" | .delete => "d" | .unknown _ => "?"
+
 def parseChange (s : String) : Option Change :=
   match s.splitOn "#" with
-  | [t, i] => i.toNat?.map fun n => ⟨t, n⟩
+  | [t, i, o] => do
+    let n ← i.toNat?
+    let op ← parseOp o
+    pure { table := t, id := n, op := op }
   | _ => none
 
 def parseStmt (s : String) : Option Stmt :=
@@ -117,7 +173,8 @@ def parseStmt (s : String) : Option Stmt :=
     else if k == "read" then some ⟨[], true, false⟩ else none
   | _ => none
 
-def evStr (e : Event) : String := e.table ++ "#" ++ toString e.id ++ (if e.values then "v" else "")
+def evStr (e : Event) : String :=
+  e.table ++ "#" ++ toString e.id ++ "#" ++ opStr e.op ++ (if e.values then "v" else "")
 
 def outStr (st : St) : String :=
   (if st.groups.isEmpty then "-" else "|".intercalate (st.groups.map fun g => ",".intercalate (g.map evStr))) ++
